@@ -15,17 +15,17 @@ def main():
     sm, rv = sys.argv[1], sys.argv[2]
     rows = []
     for ln in open(sm, errors="replace"):
-        if "|" not in ln or not re.match(r"^C\d\d-[mxyzwvutr]\d", ln):
+        if "|" not in ln or not re.match(r"^C\d\d-[mxyzwvutrq]\d", ln):
             continue
         f = [x.strip() for x in ln.split("|")]
         rows.append(f)
     byid = {r[0]: r for r in rows}
     out = []
-    rounds = {"m": 1, "x": 2, "y": 3, "z": 4, "w": 5, "v": 6, "u": 7, "t": 8, "r": 9}
-    stats = {1: [0, 0], 2: [0, 0], 3: [0, 0], 4: [0, 0], 5: [0, 0], 6: [0, 0], 7: [0, 0], 8: [0, 0], 9: [0, 0]}
+    rounds = {"m": 1, "x": 2, "y": 3, "z": 4, "w": 5, "v": 6, "u": 7, "t": 8, "r": 9, "q": 10}
+    stats = {1: [0, 0], 2: [0, 0], 3: [0, 0], 4: [0, 0], 5: [0, 0], 6: [0, 0], 7: [0, 0], 8: [0, 0], 9: [0, 0], 10: [0, 0]}
     lines = []
     for sid in sorted(os.listdir(os.path.join(HERE, "seeded"))):
-        if not re.match(r"^C\d\d-[mxyzwvutr]\d$", sid):
+        if not re.match(r"^C\d\d-[mxyzwvutrq]\d$", sid):
             continue
         meta = json.load(open(os.path.join(HERE, "seeded", sid, "meta.json")))
         rnd = rounds[sid[4]]
